@@ -25,16 +25,7 @@ def build_set(chk, wsname, structs, profile):
     ws, ok, dt, diag = B.build_machine_set(wsname, structs, profile)
     chk.extra.setdefault("build_s", {})[f"{wsname}:{profile}"] = round(dt, 1)
     if not ok:
-        # generated use-code for declarations the reference model calls valid does not compile:
-        # that is a verdict (API missing / ill-typed / declaration rejected), not a machinery failure
-        errs = [l for l in diag.splitlines() if 'error' in l][:8]
-        key = f"{wsname}: generated code for valid declarations does not compile"
-        chk.add_violation(key, "compile", key + "\n  " + "\n  ".join(errs),
-                          {"engine": "build", "workspace": wsname, "profile": profile, "diagnostics": diag[-6000:]})
-        # what was explored here: the declarations handed to the compiler, and its one verdict
-        chk.states += len(structs)
-        chk.transitions += 1
-        chk.sample({"workspace": wsname, "verdict": "generated crate rejected by rustc", "first_errors": errs[:3]})
+        chk.compile_violation("compile", wsname, profile, diag, len(structs))
         return None
     chk.programs += len(structs)
     return ws
@@ -142,9 +133,7 @@ def c07(tier):
     ws, ok, dt, diag = B.build_enum_set(f"enum-{tier}", eds, prof)
     chk.extra.setdefault("build_s", {})[f"enum-{tier}:{prof}"] = round(dt, 1)
     if not ok:
-        errs = [l for l in diag.splitlines() if 'error' in l][:8]
-        key = "enum set: accepted-by-model bitenum declarations or their conversions do not compile"
-        chk.add_violation(key, "compile", key + "\n  " + "\n  ".join(errs), {"engine": "build", "diagnostics": diag[-6000:]})
+        chk.compile_violation("compile", f"enum-{tier}", prof, diag, len(eds), key="enum set: bitenum declarations the model accepts, or their conversions, do not compile")
         return chk.finish()
     chk.programs += len(eds)
     rep = B.run(ws, prof, 'enum', ['--full-n', 16 if tier == 'quick' else 24], out_name=f"report-C07-{prof}.json")
@@ -240,6 +229,8 @@ def c16(tier):
         if ok:
             rep = B.run(ws, prof, 'enum', ['--full-n', 16], out_name=f"report-C16-enum-{prof}.json")
             chk.add_report(rep, f"enum-{t}:{prof}")
+        else:
+            chk.compile_violation("compile", f"enum-{t}", prof, diag, len(eds))
     chk.bounds.append("the machine sets of C01-C05, C07, C08 built twice (checked = opt 0 + overflow checks + debug assertions; fast = opt 3 without) and swept identically; "
                       "no Panicked observation except out-of-range indices; per-machine digests over the ordered observation stream equal across profiles")
     return chk.finish()
@@ -405,14 +396,9 @@ def c15(tier):
         ws, ok, dt, diag = B.build_mixed_set(f"const-{tier}", structs, eds, prof, enum_ctab=True)
         chk.extra.setdefault("build_s", {})[f"const-{tier}:{prof}"] = round(dt, 1)
         if not ok:
-            errs = [l for l in diag.splitlines() if 'error' in l][:10]
-            notconst = [l for l in errs if 'E0015' in l]
-            key = "const context: a generated operation cannot be evaluated at compile time" if notconst else "const set: generated code for valid declarations does not compile"
-            chk.add_violation(key, "not_const" if notconst else "compile", key + "\n  " + "\n  ".join(notconst or errs),
-                              {"engine": "build", "workspace": f"const-{tier}", "profile": prof, "diagnostics": diag[-6000:]})
-            chk.states += len(structs)
-            chk.transitions += 1
-            chk.sample({"workspace": f"const-{tier}", "verdict": "rejected by rustc", "first_errors": errs[:3]})
+            notconst = 'E0015' in diag
+            chk.compile_violation("not_const" if notconst else "compile", f"const-{tier}", prof, diag, len(structs) + len(eds),
+                                  key="const context: a generated operation cannot be evaluated at compile time" if notconst else None)
             return chk.finish()
         rep = B.run(ws, prof, 'consteval', [], out_name=f"report-C15-{prof}.json")
         chk.add_report(rep, f"consteval:{prof}")
